@@ -71,12 +71,13 @@ func rulesC04(r *Run) {
 	// ---- R5
 	r.Kind("R5", "K7")
 	ruleReasonTable(r, "R5")
-	r.Expect("R5", 6)
+	ruleExamineChecksScan(r, "R5")
+	r.Expect("R5", 8)
 
 	// ---- R6
 	r.Kind("R6", "K2")
 	ruleReasonIffFailed(r, "R6")
-	r.Expect("R6", 6)
+	r.Expect("R6", 12)
 
 	// ---- R7
 	r.Kind("R7", "K2")
@@ -978,6 +979,7 @@ func ruleReasonIffFailed(r *Run, rule string) {
 	// `if skipped` or `if err == nil` left every successor set unchanged)
 	boolGateRouting(r, rule, pkgSM+".finalStates.bypassChecks", pkgSM+".finalStates.examineBypasses", []string{"final.end"}, []string{"final.planChecks"})
 	ruleFinalPlanChecksRouting(r, rule)
+	ruleFinalNoSilentStop(r, rule, fm)
 
 	// every path of a finalStates state that assigns Reason or Failed sets Err, and vice versa
 	for _, st := range []string{"planChecks", "blocks", "bypassChecks", "start", "end"} {
@@ -1329,4 +1331,192 @@ func initialiserOf(p *Prog, v *types.Var) *ast.CompositeLit {
 		return nil
 	}
 	return lit
+}
+
+// scanSegments splits a path into the iterations of the range loop rs: [from, to) event index pairs,
+// with how each iteration ended: "next" (back to the loop header: next iteration or natural exit),
+// "return" (a return inside the body), "left" (the path goes on outside the body without passing the
+// header: break/goto), "cut" (path ends inside the body: truncated prefix or no-return call).
+type scanSeg struct {
+	from, to int
+	end      string
+}
+
+func scanSegments(p *Path, rs *ast.RangeStmt) []scanSeg {
+	var out []scanSeg
+	for i := 0; i < len(p.Ev); i++ {
+		e := p.Ev[i]
+		if e.Kind != EvRange || e.Clause != ast.Stmt(rs) || !e.Taken {
+			continue
+		}
+		seg := scanSeg{from: i + 1, to: len(p.Ev), end: "cut"}
+		for j := i + 1; j < len(p.Ev); j++ {
+			x := p.Ev[j]
+			if x.Kind == EvRange && x.Clause == ast.Stmt(rs) {
+				seg.to, seg.end = j, "next"
+				break
+			}
+			if x.Deferred {
+				continue
+			}
+			if x.Depth == 0 && x.From == "" && x.Pos.IsValid() && (x.Pos < rs.Body.Pos() || x.Pos > rs.Body.End()) {
+				seg.to, seg.end = j, "left"
+				break
+			}
+			if x.Kind == EvReturn && x.Depth == 0 && x.From == "" {
+				seg.to, seg.end = j+1, "return"
+				break
+			}
+		}
+		out = append(out, seg)
+		i = seg.from - 1
+	}
+	return out
+}
+
+// ruleExamineChecksScan (C04-R5, found by the mutation sweep of session 2): examineChecks looks at every
+// element of the array it is given. Decided by assume-and-refute per loop iteration: an absent (nil)
+// group, a Completed one and one that never ran send the scan on to the next element — they neither
+// end it nor return; a present Failed group is never passed over — every iteration that stays possible
+// under "present ∧ Failed" returns a non-nil error.
+func ruleExamineChecksScan(r *Run, rule string) {
+	ex := r.Fn(rule, pkgSM, "finalStates", "examineChecks")
+	if ex == nil {
+		return
+	}
+	fl, paths, ok := r.flowPaths(rule, ex)
+	if !ok {
+		return
+	}
+	info := fl.Info
+	// the loop over the parameter
+	var rs *ast.RangeStmt
+	var param types.Object
+	if ps := ex.Decl.Type.Params; ps != nil && len(ps.List) == 1 && len(ps.List[0].Names) == 1 {
+		param = info.ObjectOf(ps.List[0].Names[0])
+	}
+	ast.Inspect(ex.Decl.Body, func(n ast.Node) bool {
+		if x, ok := n.(*ast.RangeStmt); ok && rs == nil && param != nil && ObjOf(info, x.X) == param {
+			rs = x
+		}
+		return true
+	})
+	if rs == nil {
+		r.Unresolved(rule, "examineChecks ranges over its parameter")
+		return
+	}
+	isElem := func(e ast.Expr) bool { return IsLoopElem(info, rs, e) }
+	statuses := []string{"workflow.Completed", "workflow.Failed", "workflow.NotStarted", "workflow.Running", "workflow.Stopped"}
+	atom := func(e ast.Expr) (string, bool, bool) {
+		if x, op, ok := IsNilCompare(info, e); ok && isElem(ast.Unparen(x)) {
+			return "nil", op == token.NEQ, true
+		}
+		for _, st := range statuses {
+			if neg, ok := EqAtom(info, e, func(x ast.Expr) bool {
+				b, m := FieldPath(info, x, "workflow.Checks", "State", "Status")
+				return m && isElem(ast.Unparen(b))
+			}, st); ok {
+				return "st:" + st, neg, true
+			}
+		}
+		return "", false, false
+	}
+	assume := func(nilElem bool, status string) map[string]bool {
+		a := map[string]bool{"nil": nilElem}
+		if !nilElem {
+			for _, st := range statuses {
+				a["st:"+st] = st == status
+			}
+		}
+		return a
+	}
+	type sit struct {
+		name   string
+		asg    map[string]bool
+		wantOn bool // true: the scan must go on; false: must return a non-nil error
+	}
+	sits := []sit{
+		{"an absent (nil) group", assume(true, ""), true},
+		{"a Completed group", assume(false, "workflow.Completed"), true},
+		{"a group that never ran", assume(false, "workflow.NotStarted"), true},
+		{"a Failed group", assume(false, "workflow.Failed"), false},
+	}
+	bad := map[string]string{}
+	pos := map[string]token.Pos{}
+	n := 0
+	for i := range paths {
+		p := &paths[i]
+		for _, sg := range scanSegments(p, rs) {
+			if sg.end == "cut" {
+				continue
+			}
+			for _, s := range sits {
+				if PathRefutedRange(fl, p, sg.from, sg.to, s.asg, atom) {
+					continue
+				}
+				n++
+				if s.wantOn && sg.end != "next" && bad["on"] == "" {
+					how := map[string]string{"return": "makes examineChecks return", "left": "ends the scan (the loop is left)"}[sg.end]
+					bad["on"] = s.name + " " + how + ": the groups after it are never examined, a failed group among them is not reported"
+					pos["on"] = p.Ev[sg.from-1].Pos
+					if sg.to-1 < len(p.Ev) && sg.to-1 >= sg.from {
+						pos["on"] = p.Ev[sg.to-1].Pos
+					}
+				}
+				if !s.wantOn && bad["failed"] == "" {
+					okRet := false
+					if sg.end == "return" {
+						ret := p.Ev[sg.to-1]
+						if len(ret.Rhs) == 2 && NilnessAt(info, p, sg.to-1, ret.Rhs[1]) != "nil" && ValueKey(info, ret.Rhs[1]) != "nil" {
+							okRet = true
+						}
+					}
+					if !okRet {
+						bad["failed"] = "an iteration that is possible for a present, Failed group ends with '" + sg.end + "' and no error: the failed stage is passed over and the plan ends Completed"
+						pos["failed"] = p.Ev[sg.from-1].Pos
+					}
+				}
+			}
+		}
+	}
+	if n == 0 {
+		r.Unresolved(rule, "examineChecks loop iterations")
+		return
+	}
+	bp := func(k string) token.Pos {
+		if p, ok := pos[k]; ok {
+			return p
+		}
+		return rs.Pos()
+	}
+	r.Check(rule, "examineChecks:scan-goes-on-past-harmless-groups", bp("on"), bad["on"] == "", "%s", orOK(bad["on"], "nil, Completed and NotStarted groups send the scan on to the next element"))
+	r.Check(rule, "examineChecks:failed-group-never-passed-over", bp("failed"), bad["failed"] == "", "%s", orOK(bad["failed"], "every iteration possible for a present Failed group returns a non-nil error"))
+}
+
+// ruleFinalNoSilentStop: in the verdict machine only `end` may stop without an error; any other state that
+// returns with neither a successor nor Err leaves the plan in the status it had (Running) for ever.
+func ruleFinalNoSilentStop(r *Run, rule string, fm *Machine) {
+	for _, st := range []string{"start", "bypassChecks", "planChecks", "blocks"} {
+		fn := fm.States[st]
+		if fn == nil {
+			continue
+		}
+		fl, paths, ok := r.flowPaths(rule, fn)
+		if !ok {
+			continue
+		}
+		bad := ""
+		var bpos token.Pos = fn.Decl.Pos()
+		for i := range paths {
+			p := &paths[i]
+			if p.Exit != ExitReturn {
+				continue
+			}
+			next, errSet, _ := PathNext(fl, p)
+			if next == "nil" && !errSet && bad == "" {
+				bad = "a path of finalStates." + st + " returns with no successor and no error (guard " + ExitGuardKey(fl, p) + "): the verdict machine stops before `end`, the plan keeps the status it had and is never Completed"
+			}
+		}
+		r.Check(rule, "final:"+st+":no-silent-stop", bpos, bad == "", "%s", orOK(bad, "every path names a successor or sets Err"))
+	}
 }
